@@ -409,5 +409,73 @@ def enum_xnlri():
     return out
 
 _enum_all_core = enum_all
+LSF = (16388 << 16) | 71
+
+def enum_ls_nlri():
+    """LsAddrPrefix messages (kind 8, tag 18): BGP-LS NLRI from the API side"""
+    out = []
+    N0 = [65001, 0, 0, 0, S('10.0.0.1'), S(''), 0]
+    def A(cls, inner, typ=1, proto=2, ident=0, fam=LSF): out.append(xn('lsnlri:' + cls, fam, [18, typ, proto, ident, inner]))
+    for t in (-1, 0, 1, 6, 65535, 65536, 65536 + 1): A('route_oneof', [0], typ=t)
+    for p in (-1, 0, 1, 7, 255, 256, 257, 2 ** 31 - 1, -2 ** 31): A('protocol_id', [1, N0], proto=p)
+    for i in (0, 1, 2 ** 32, 2 ** 64 - 1): A('identifier', [1, N0], ident=i)
+    for inner in ([1, []], [2, [], N0, []], [2, N0, [], []], [3, [], []], [4, [], []], [5, [], [], []]): A('node_missing', inner)
+    for t in ('', '10.0.0.1', '0000.0000.0001', '0000.0000.0001.02', 'ABCD.ef01.2345', '0000.0000.001', '0000.0000.00001', 'gggg.0000.0001', '0000.0000.0001.2', '0000.0000.0001.002',
+              '0000.0000.0001.02.03', 'x', '+000.0000.0001', '0000.0000.0001.+2', '1.2.3', '256.1.1.1', '2001:db8::1', '0000.0000'):
+        n = list(N0); n[4] = S(t)
+        A('igp_router_id', [1, n]); A('igp_router_id', [2, N0, n, []])
+    for t in ('', '10.0.0.1', 'bad', '2001:db8::1', '10.0.0.256'):
+        n = list(N0); n[5] = S(t)
+        A('bgp_router_id', [1, n])
+    for pos in (0, 1, 2, 6):
+        for v in (0, 1, U32MAX):
+            n = list(N0); n[pos] = v
+            A('node_numbers', [1, n])
+    for t in ('0000.0000.0001', '0000.0000.0001.02', '10.0.0.1'):
+        n = list(N0); n[4] = S(t); n[3] = 1
+        A('pseudonode', [1, n])
+    for l, r in ((0, 0), (1, 0), (0, 1), (U32MAX, U32MAX)): A('link_ids', [2, N0, N0, [l, r, S(''), S(''), S(''), S('')]])
+    A('link_ids', [2, N0, N0, []])
+    for pos in (2, 3, 4, 5):
+        for t in ('', '10.0.0.1', '2001:db8::1', 'bad', '10.0.0.1/24', '::'):
+            d = [0, 0, S(''), S(''), S(''), S('')]; d[pos] = S(t)
+            A('link_addresses', [2, N0, N0, d])
+    for t in ('10.0.0.0/8', '0.0.0.0/0', '10.0.0.0/0', '10.1.2.3/32', '10.1.2.3/24', '10.1.2.0/23', '10.0.0.0/33', '10.0.0.0/255', '10.0.0.0/256', '10.0.0.0', '/8', 'x/8', '2001:db8::/32', '10.0.0.0/+8', '10.0.0.0/08', '10.0.0.0/8/8', ''):
+        A('reachability_v4', [3, N0, [[S(t)], 0]])
+    for t in ('2001:db8::/32', '::/0', 'ff00::/8', '2001:db8::1/128', '2001:db8::1/64', '2001:db8::/129', '2001:db8::/255', '2001:db8::/256', '2001:db8::', '10.0.0.0/8', '::ffff:1.2.3.4/128', 'x/8'):
+        A('reachability_v6', [4, N0, [[S(t)], 0]])
+    A('reachability_count', [3, N0, []]); A('reachability_count', [3, N0, [[], 0]]); A('reachability_count', [3, N0, [[S('10.0.0.0/8'), S('10.1.0.0/16')], 0]]); A('reachability_count', [3, N0, [[S('10.0.0.0/8'), S('bad')], 0]])
+    for o in (-1, 0, 1, 6, 255, 256, 2 ** 31 - 1):
+        A('ospf_route_type', [3, N0, [[S('10.0.0.0/8')], o]]); A('ospf_route_type', [4, N0, [[S('ff00::/8')], o]])
+    for s_ in ([], [[]], [[S('2001:db8::1')]], [[S('2001:db8::1'), S('2001:db8::2')]], [[S('bad')]], [[S('2001:db8::1'), S('')]], [[S('10.0.0.1')]]): A('srv6_sids', [5, N0, s_, []])
+    for m in ([], [[]], [[0]], [[2]], [[65535]], [[65536]], [[U32MAX]], [[1, 2]]): A('srv6_multi_topology', [5, N0, [[S('2001:db8::1')]], m]); A('srv6_multi_topology', [5, N0, [], m])
+    A('wrong_family', [1, N0], fam=V4U); A('wrong_family', [3, N0, [[S('10.0.0.0/8')], 0]], fam=MUP4)
+    return out
+
+def gen_ls_nlri_case(rng):
+    """a random LsAddrPrefix message (kind 8, tag 18)"""
+    def node():
+        if rng.random() < 0.04: return []
+        igp = rng.choice(('', '10.0.0.1', '0000.0000.0001', '0000.0000.0001.02', 'abcd.EF01.2345', 'bad', '0000.0000.001'))
+        return [rng.choice((0, 65001, U32MAX)), rng.choice((0, 0, 7)), rng.choice((0, 0, 1)), rng.randrange(2), S(igp), S(rng.choice(('', '', '10.0.0.2', 'bad'))), rng.choice((0, 0, 5))]
+    def reach(v6):
+        if v6: return S(rng.choice(('2001:db8::/32', '::/0', 'ff00::/8', '2001:db8::1/128', '2001:db8::1/64', '2001:db8::/129', '10.0.0.0/8', 'x')))
+        return S(rng.choice(('10.0.0.0/8', '0.0.0.0/0', '10.1.2.3/32', '10.1.2.3/24', '10.0.0.0/33', '10.0.0.0', '2001:db8::/32', '10.0.0.0/256', '192.0.2.0/24')))
+    k = rng.choice((0, 1, 1, 2, 2, 3, 3, 4, 4, 5, 5))
+    if k == 0: inner = [0]
+    elif k == 1: inner = [1, node()]
+    elif k == 2:
+        a4 = lambda: S(rng.choice(('', '', '10.0.0.1', 'bad', '2001:db8::1')))
+        a6 = lambda: S(rng.choice(('', '', '2001:db8::1', 'bad', '10.0.0.1')))
+        inner = [2, node(), node(), [rng.choice((0, 1, U32MAX)), rng.choice((0, 2)), a4(), a4(), a6(), a6()] if rng.random() < 0.8 else []]
+    elif k in (3, 4):
+        inner = [k, node(), [[reach(k == 4) for _ in range(rng.randrange(3))], rng.choice((0, 0, 1, 6, 255, 256, -1))] if rng.random() < 0.9 else []]
+    else:
+        sids = [S(rng.choice(('2001:db8::1', '2001:db8::2', 'bad'))) if rng.random() < 0.9 else S('') for _ in range(rng.randrange(3))]
+        mts = [rng.choice((0, 2, 65535, 65536)) for _ in range(rng.choice((0, len(sids), len(sids), 1)))]
+        inner = [5, node(), [sids] if rng.random() < 0.85 else [], [mts] if rng.random() < 0.6 else []]
+    fam = LSF if rng.random() < 0.95 else V4U
+    return {'k': 8, 'fam': fam, 'x': [18, rng.choice((0, 1, 6, 65535, 65536, -1)), rng.choice((1, 2, 3, 7, 255, 256, -1)) if rng.random() < 0.3 else rng.randrange(1, 8), rng.choice((0, 1, 2 ** 64 - 1)), inner]}
+
 def enum_all():
-    return _enum_all_core() + enum_xnlri()
+    return _enum_all_core() + enum_xnlri() + enum_ls_nlri()
